@@ -14,7 +14,7 @@ ALPHABET = ["C", "N", "O", "H", "*", ""]
 
 META = dict(
     bounds=dict(
-        quick="canonicaliser: reactions on n<=3 atoms (element {C,N,O}, hcount per side 0..1, orders per side 0..2) under a "
+        quick="canonicaliser: reactions on n<=3 atoms (element {C,N,O}, hcount per side 0..1, orders per side 0..2; for n=3: orders 0..1 and either hcount 0 or all-carbon) under a "
               "solver-chosen atom-map numbering and insertion order, back-ends wl and nauty: ITS of the output isomorphic to "
               "the ITS of the input, fixed point, numbering independence when all reactant atoms are distinguishable; "
               "validator: reactions on n<=3 atoms with symbolic labels, every renumbering accepted, a transposition of two "
@@ -76,9 +76,31 @@ def content_token(G, H):
     return repr((side_token(G), side_token(H)))
 
 
+_TOK = {}
+
+
 def smi_stub(g, **kw):
-    """stands for graph_to_smi: a string determined by the mapped molecule graph alone (not by how the input was written)"""
-    return "smiles" + repr(side_token(g))
+    """stands for graph_to_smi: an opaque token for 'the string determined by this mapped molecule graph alone'; what the
+    token stands for (labels may be symbolic) is kept in a table, so writing the string realises nothing"""
+    key = "{smi%d}" % len(_TOK)
+    _TOK[key] = side_token(g)
+    return key
+
+
+def rsmi_tokens(rsmi):
+    """the two tables entries a canonical string '{smiK}>>{smiL}' refers to, or None if the string is something else"""
+    parts = rsmi.split(">>") if isinstance(rsmi, str) else []
+    if len(parts) != 2 or parts[0] not in _TOK or parts[1] not in _TOK:
+        return None
+    return _TOK[parts[0]], _TOK[parts[1]]
+
+
+def rsmi_differs(rsmi, sides):
+    """formula: the canonical string does not denote the two given side tokens"""
+    t = rsmi_tokens(rsmi)
+    if t is None:
+        return True
+    return NOT(AND(EQ(t[0], sides[0]), EQ(t[1], sides[1])))
 
 
 def run_canon(backend, G, H, inst=None):
@@ -103,8 +125,9 @@ def run_canon(backend, G, H, inst=None):
     return c.canonical_reactant_graph, c.canonical_product_graph, c
 
 
-def h_canon(E, n, backend, omax=2):
-    G0, H0, rs = sym_reaction(E, "r", n, els=("C", "N", "O"), hs=(0, 1), cs=(0,), orders=tuple(range(omax + 1)))
+def h_canon(E, n, backend, omax=2, hmax=1, els=("C", "N", "O")):
+    _TOK.clear()
+    G0, H0, rs = sym_reaction(E, "r", n, els=tuple(els), hs=tuple(range(hmax + 1)), cs=(0,), orders=tuple(range(omax + 1)))
     # atom-map numbering and insertion order chosen by the solver
     pi = [int(x) for x in E.perm("num", n)]
     ids = {v: 3 + 2 * pi[v - 1] for v in G0.nodes}
@@ -122,13 +145,14 @@ def h_canon(E, n, backend, omax=2):
                                                           (b.nodes[v]["element"], b.nodes[v]["hcount"], b.nodes[v]["charge"])),
                                     lambda e, f: EQ(a[e[0]][e[1]]["order"], b[f[0]][f[1]]["order"]))
     E.check(OR(NOT(giso(G, R)), NOT(giso(H, P))), "canonical-reaction-has-the-same-unmapped-sides", info)
-    E.check(inst.canonical_rsmi != smi_stub(R) + ">>" + smi_stub(P), "canonical-string-is-the-serialisation-of-the-canonical-graphs", info)
+    rsmi1 = inst.canonical_rsmi
+    E.check(rsmi_differs(rsmi1, (side_token(R), side_token(P))), "canonical-string-is-the-serialisation-of-the-canonical-graphs", info)
     E.check(sorted(R.nodes) != list(range(1, n + 1)) or any(R.nodes[v].get("atom_map") != v for v in R.nodes)
             or any(P.nodes[v].get("atom_map") != v for v in P.nodes), "atom-maps-are-1..N-and-synchronised", info)
     # fixed point
     R2, P2, inst2 = run_canon(backend, R, P)
     E.check(OR(NOT(mol_eq(R, R2)), NOT(mol_eq(P, P2))), "canonical-form-is-a-fixed-point", info)
-    E.check(inst2.canonical_rsmi != inst.canonical_rsmi, "canonical-string-of-the-canonical-form-differs", info)
+    E.check(rsmi_differs(inst2.canonical_rsmi, rsmi_tokens(rsmi1) or ((), ())), "canonical-string-of-the-canonical-form-differs", info)
     # the same canonicaliser object used again: for the same reaction stored in another atom order, and for another
     # reaction with the same mapped reactants (product side = reactant side)
     Gr = relabel(G, {v: v for v in G.nodes}, order=list(reversed(list(G.nodes))))
@@ -204,7 +228,11 @@ def shards(tier, seed):
     sh = []
     for be in ("wl", "nauty"):
         sh.append(dict(h="canon", params=dict(n=2, backend=be)))
-        sh.append(dict(h="canon", params=dict(n=3, backend=be, omax=1 if tier == "quick" else 2)))
+        if tier == "quick":
+            sh.append(dict(h="canon", params=dict(n=3, backend=be, omax=1, hmax=0)))
+            sh.append(dict(h="canon", params=dict(n=3, backend=be, omax=1, hmax=1, els=["C"])))
+        else:
+            sh.append(dict(h="canon", params=dict(n=3, backend=be, omax=2)))
     for m in ("RC", "ITS"):
         sh.append(dict(h="validator", params=dict(n=2, method=m)))
         sh.append(dict(h="validator", params=dict(n=3, method=m, omax=1 if tier == "quick" else 2)))
